@@ -18,16 +18,18 @@ from . import signals
 
 PID = 'C20'
 TIMEOUT = 3000.0
-RULE = ('every operation sequence of length 1..D over a 22-operation alphabet from both roots, one forked process per '
-        'node; non-trivial = history contains a verbosity override or a raising call after the logger has been set up')
+RULE = ('every operation sequence of length 1..D over a 26-operation alphabet from both roots, one forked process per '
+        'node; plus 12-member ensembles on 3 controlled workers (out-of-order completion) in 7 logger states; non-trivial = history contains a verbosity override or a raising call after the logger has been set up')
 ASSUMPTIONS = ['worker pools are replaced by the in-process serial pool (the property concerns the logging wrappers)',
                'stdout of every node is /dev/null; the file handler writes under out/tmp',
                'reference results are computed once in the pristine root process']
 
 LEVELS = ('CRITICAL', 'WARNING', 'INFO', 'DEBUG')
+# every level name the standard library knows can be put on the console; overrides use the documented ones plus ERROR
+ALL_LEVELS = LEVELS + ('ERROR', 'NOTSET')
 OPS = ([('set_up', None), ('set_up', 'DEBUG'), ('set_up', 'WARNING'), ('set_up_file', None)] +
-       [('set_level', l) for l in LEVELS] + [('disable', None), ('enable', None)] +
-       [('call', v) for v in (None,) + LEVELS] + [('call_raise', v) for v in (None,) + LEVELS] +
+       [('set_level', l) for l in ALL_LEVELS] + [('disable', None), ('enable', None)] +
+       [('call', v) for v in (None,) + LEVELS + ('ERROR',)] + [('call_raise', v) for v in (None,) + LEVELS + ('ERROR',)] +
        # the same variant twice within a short history (the rotating calls never repeat a variant within 3 steps)
        [('call_sift', None), ('call_sift', 'CRITICAL')])
 VARIANTS = ('sift', 'mask_sift', 'ensemble_sift', 'complete_ensemble_sift')
@@ -42,6 +44,80 @@ def cases(tier, seed):
     for root in ('never-set-up', 'set-up'):
         for i in range(len(OPS)):
             yield (root, i, d, seed)
+    for si in range(len(POOL_STATES)):
+        for v in ('ensemble_sift', 'complete_ensemble_sift'):
+            yield ('pool', si, v, seed)
+
+
+# logger states for the larger ensembles on a real multi-worker schedule: (operations, verbose argument of the call)
+POOL_STATES = (((), 'omit'), ((('set_up', None),), 'omit'), ((('set_up', 'DEBUG'),), 'omit'), ((('set_up', None), ('disable', None)), 'omit'),
+               ((('set_up_file', None),), 'omit'), ((('set_up', 'WARNING'),), 'DEBUG'), ((), 'INFO'))
+
+
+def pool_call(variant, x, verbose, mp_obj):
+    import emd.sift as S
+    np.random.seed(5)
+    kw = {} if verbose == 'omit' else {'verbose': verbose}
+    with forkpool.installed(mp_obj):
+        if variant == 'complete_ensemble_sift':
+            out, noise = S.complete_ensemble_sift(x.copy(), nensembles=12, max_imfs=3, nprocesses=3, **kw)
+            return np.c_[out, noise].tobytes()
+        return np.asarray(S.ensemble_sift(x.copy(), nensembles=12, max_imfs=2, nprocesses=3, **kw)).tobytes()
+
+
+def in_child(fn):
+    """Run fn() in a forked child (pristine process-global logging state of the shard process); return its value."""
+    r, w = os.pipe()
+    pid = os.fork()
+    if pid == 0:
+        os.close(r)
+        try:
+            guard.silence_stdout()
+            try:
+                out = ('ok', fn())
+            except BaseException as e:      # noqa
+                out = ('raise', repr(e))
+            with os.fdopen(w, 'wb') as f:
+                pickle.dump(out, f)
+        finally:
+            os._exit(0)
+    os.close(w)
+    with os.fdopen(r, 'rb') as f:
+        data = f.read()
+    os.waitpid(pid, 0)
+    return pickle.loads(data) if data else ('raise', 'child died')
+
+
+def check_pool(case):
+    import emd
+    _, si, variant, seed = case
+    ops, verbose = POOL_STATES[si]
+    x = the_signal(seed)
+    tmpdir = os.path.join(os.path.dirname(os.path.dirname(os.path.dirname(os.path.abspath(__file__)))), 'out', 'tmp')
+    os.makedirs(tmpdir, exist_ok=True)
+    sched = [[i % 3 for i in range(64)] for _ in range(8)]
+    ref = in_child(lambda: pool_call(variant, x, 'omit', forkpool.SerialMP()))
+
+    def body():
+        for op in ops:
+            apply_op(op, 0, seed, tmpdir)
+        return pool_call(variant, x, verbose, forkpool.ControlledMP(sched))
+    got = in_child(body)
+    for fn in os.listdir(tmpdir):
+        if fn.startswith('c20-'):
+            try:
+                os.unlink(os.path.join(tmpdir, fn))
+            except OSError:
+                pass
+    viols = []
+    tag = '%s(nensembles=12, nprocesses=3, verbose=%s) on 3 workers after %s' % (variant, verbose, fmt(list(ops)))
+    if ref[0] != 'ok':
+        viols.append(('call-fails-before-set-up', '%s: the plain serial call raised %s ##HIST[]' % (variant, ref[1])))
+    elif got[0] != 'ok':
+        viols.append(('pool:raise', '%s raised %s' % (tag, got[1])))
+    elif got[1] != ref[1]:
+        viols.append(('pool:result-depends-on-logging', '%s differs from the result of the never-set-up serial run' % tag))
+    return Outcome(cls='pool', transitions=2, viols=viols, nontrivial=bool(ops), validated=1)
 
 
 def the_signal(seed):
@@ -229,6 +305,8 @@ def check_case(case):
     import emd
     if case[0] == 'history':
         return check_history(case)
+    if case[0] == 'pool':
+        return check_pool(case)
     root, i, depth, seed = case
     tmpdir = os.path.join(os.path.dirname(os.path.dirname(os.path.dirname(os.path.abspath(__file__)))), 'out', 'tmp')
     os.makedirs(tmpdir, exist_ok=True)
@@ -357,6 +435,6 @@ def run(ctx):
 
 
 def nonvacuity(rep, ctx):
-    if not {'never-set-up', 'set-up'} <= set(rep.classes):
+    if not {'never-set-up', 'set-up', 'pool'} <= set(rep.classes):
         return ['vacuous: outcome classes %r' % dict(rep.classes)]
     return []
